@@ -36,7 +36,7 @@ package editor
 //@   ensures result == killbuf(reg)
 
 //@ func (*Buffers).writeNum
-//@   props C16 C17 C01
+//@   props C16 C17 C01 C06
 //@   retains buf
 //@   terminates
 //@   requires bufok(reg)
@@ -47,7 +47,7 @@ package editor
 //@   loop 1 decreases i
 
 //@ func (*Buffers).Write
-//@   props C16 C17 C01
+//@   props C16 C17 C01 C06
 //@   terminates
 //@   requires bufok(reg)
 //@   assigns mapof(reg.num), mapof(reg.alpha), reg.active, reg.waiting, reg.selected
@@ -66,14 +66,14 @@ package editor
 //@   ensures reg.active == 0 && !reg.waiting && !reg.selected
 
 //@ func (*Buffers).writeAlpha
-//@   props C16 C17 C01
+//@   props C16 C17 C01 C06
 //@   retains buf
 //@   terminates
 //@   requires bufok(reg)
 //@   assigns mapof(reg.alpha)
 
 //@ func (*Buffers).WriteTo
-//@   props C16 C17 C01
+//@   props C16 C17 C01 C06
 //@   terminates
 //@   requires bufok(reg)
 //@   assigns mapof(reg.num), mapof(reg.alpha)
